@@ -21,7 +21,9 @@ TECHNIQUE = "property-based testing (Hypothesis): generated label arrays/operati
 RULE = (
     "case = (1-10 atoms, labels in [-3,6], operation in {Ball,Box,Sphere,Translation,Rotation,TranslationRotation,composite operation}, pre-selected label or not, "
     "composite of n in 1..6 sub-moves via * and +, veto script, seed). Non-trivial = labels contain a negative, a repeated and a non-contiguous value, or a composite "
-    "with n > number of eligible particles; distinct = (sorted label multiset, operation, n, preselected, veto pattern)."
+    "with n > number of eligible particles; distinct = (sorted label multiset, operation, n, preselected, veto pattern). "
+    "sequences: 2-5 steps on ONE move object (calls, calls whose attempts are all vetoed, atoms appended + on_atoms_changed with an existing / automatic / negative label); "
+    "non-trivial = a vetoed call or an atom addition precedes a successful call."
 )
 ASSUMPTIONS = [
     "no constraints are attached (the statement's 'when no constraint interferes'); constraints are C12's subject",
